@@ -137,7 +137,10 @@ func (w *sgWorld) malBlobs(kind string, by int, msg []byte) []sgBlob {
 	case "me":
 		out = append(out, sgBlob{"empty", "empty", []byte{}})
 	case "mo":
-		for _, b := range schemes {
+		for _, b := range []byte{sch, 1, 9, 10, 11, 0x7f} {
+			if b == sch && len(out) > 0 {
+				continue
+			}
 			out = append(out, sgBlob{fmt.Sprintf("scheme-byte-only:%02x", b), "scheme-byte-only", []byte{b}})
 		}
 	case "mt":
@@ -192,7 +195,7 @@ func (w *sgWorld) malBlobs(kind string, by int, msg []byte) []sgBlob {
 			if b == sch {
 				continue
 			}
-			for _, l := range []int{1, 2, n / 2, n - 1} {
+			for _, l := range []int{1, n / 2, n - 1} {
 				if l >= 1 && l < n {
 					out = append(out, sgBlob{fmt.Sprintf("wrong-scheme:%02x+%d/%d", b, l, n), "wrong-scheme-byte+truncated", cat([]byte{b}, val[:l])})
 				}
@@ -355,6 +358,9 @@ func (w *sgWorld) encode(k int, enc string) []byte {
 func sgPush(sink *common.ZeroCopySink, data []byte, mode string) {
 	if mode == "direct" && (len(data) > 75 || len(data) == 0) {
 		mode = "d1"
+		if len(data) > 255 {
+			mode = "d2"
+		}
 	}
 	switch mode {
 	case "direct":
